@@ -33,6 +33,8 @@ type Params struct {
 	Oracles  string `json:"oracles"` // subset of "c01 c02 c03 c05"
 	Closure  bool   `json:"closure"` // synchronise to quiescence from every state
 	MaxEdits int    `json:"maxedits"`
+	NoRemote bool   `json:"noremote"` // replicas exchange only with each other (needs Peers)
+	OneEdit  bool   `json:"oneedit"`  // only single-operation edits
 }
 
 func (p Params) String() string { b, _ := json.Marshal(p); return string(b) }
@@ -142,18 +144,23 @@ func (m *model) Actions() []string {
 	var out []string
 	for _, x := range m.names {
 		if m.p.MaxEdits == 0 || m.edits < m.p.MaxEdits {
-			out = append(out, fmt.Sprintf("edit(%s,1)", x), fmt.Sprintf("edit(%s,2)", x))
+			out = append(out, fmt.Sprintf("edit(%s,1)", x))
+			if !m.p.OneEdit {
+				out = append(out, fmt.Sprintf("edit(%s,2)", x))
+			}
 			if m.p.Edit2 {
 				out = append(out, fmt.Sprintf("edit2(%s)", x))
 			}
 		}
 	}
 	for _, x := range m.names {
-		out = append(out, fmt.Sprintf("push(%s,R)", x))
-		if m.p.Split {
-			out = append(out, fmt.Sprintf("fetch(%s,R)", x), fmt.Sprintf("merge(%s,R)", x))
-		} else {
-			out = append(out, fmt.Sprintf("pull(%s,R)", x))
+		if !m.p.NoRemote {
+			out = append(out, fmt.Sprintf("push(%s,R)", x))
+			if m.p.Split {
+				out = append(out, fmt.Sprintf("fetch(%s,R)", x), fmt.Sprintf("merge(%s,R)", x))
+			} else {
+				out = append(out, fmt.Sprintf("pull(%s,R)", x))
+			}
 		}
 		if m.p.Peers {
 			for _, y := range m.names {
